@@ -46,11 +46,16 @@ type c10resp struct {
 	Body   string `json:"body,omitempty"`  // name of a body of c10Bodies
 	Frame  string `json:"frame,omitempty"` // cl chunked eof
 	APIVer string `json:"api_version,omitempty"`
+	// DelayMs: the server waits that long before it answers (a slow but healthy service)
+	DelayMs int `json:"delay_ms,omitempty"`
 }
 
 func (r c10resp) String() string {
 	if r.Fault != "" {
 		return "fault=" + r.Fault
+	}
+	if r.DelayMs > 0 {
+		return fmt.Sprintf("%d/%s/%s/%s/after-%dms", r.Status, r.CT, r.Body, r.Frame, r.DelayMs)
 	}
 	return fmt.Sprintf("%d/%s/%s/%s", r.Status, r.CT, r.Body, r.Frame)
 }
@@ -528,6 +533,12 @@ func (s *c10server) respond(rw net.Conn, tc *net.TCPConn, li int, head bool, r c
 		tc.SetLinger(0)
 		tc.Close()
 	}
+	if r.DelayMs > 0 {
+		select {
+		case <-time.After(time.Duration(r.DelayMs) * time.Millisecond):
+		case <-s.done:
+		}
+	}
 	switch r.Fault {
 	case "stall-pre":
 		stall()
@@ -643,6 +654,9 @@ type c10case struct {
 	Sec     map[string]string `json:"secondary"` // request class -> ok | fail | stall
 	// Cancel: the scan context is cancelled 300 ms into the probe (request timeout 8 s): the probe must end promptly
 	Cancel bool `json:"cancel,omitempty"`
+	// Long: request timeout 12 s and a service that takes 10.5 s to answer one request: a configured
+	// timeout must be the only limit (no second, shorter, built-in one)
+	Long bool `json:"long_timeout,omitempty"`
 }
 
 func (k *c10case) name() string {
@@ -654,6 +668,9 @@ func (k *c10case) name() string {
 	}
 	if k.Cancel {
 		sec += ":cancelled-at-300ms"
+	}
+	if k.Long {
+		sec += ":timeout-12s"
 	}
 	return fmt.Sprintf("%s:%s:%s%s", k.Scanner, k.Scheme, k.Prim, sec)
 }
@@ -719,6 +736,11 @@ func c10run(k *c10case, sp *c10spec, generous bool) (o c10obs) {
 	if k.Cancel {
 		timeout = 8 * time.Second
 	}
+	hardCap := c10HardCap
+	if k.Long {
+		timeout = 12 * time.Second
+		hardCap = 30 * time.Second
+	}
 	s := &c10server{https: k.Scheme == "https", ip: c10addr(sp.addrBase, k.Idx), classify: sp.classify, primaryReady: sp.ready,
 		resp: map[string]c10resp{"primary": k.Prim}, done: make(chan struct{})}
 	for cl, sym := range k.Sec {
@@ -764,7 +786,7 @@ func c10run(k *c10case, sp *c10spec, generous bool) (o c10obs) {
 	hang := false
 	select {
 	case r = <-rc:
-	case <-time.After(c10HardCap):
+	case <-time.After(hardCap):
 		hang = true
 		cancel()
 		s.teardown()
